@@ -39,11 +39,19 @@ import (
 // designed to panic).
 type RootObjectIterator struct {
 	foundReferences map[duplicates.TypedPointer]bool
-	namedReferences map[duplicates.TypedPointer]uint32
+	namedReferences map[namedReferenceKey]uint32
 	nextMarkerName  uint32
 	context         Context
 	config          *configuration.Configuration
 	referenceIdBuff []byte
+}
+
+// Slices that start at the same address are only the same object if they also
+// have the same length (sub-slices of one array, and all slices of zero-sized
+// elements, share their start address).
+type namedReferenceKey struct {
+	ptr    duplicates.TypedPointer
+	length int
 }
 
 // Create a new root object iterator that will send data events to eventReceiver.
@@ -85,7 +93,7 @@ func (_this *RootObjectIterator) Iterate(object interface{}) {
 
 	if _this.config.Iterator.RecursionSupport {
 		_this.foundReferences = duplicates.FindDuplicatePointers(object)
-		_this.namedReferences = make(map[duplicates.TypedPointer]uint32)
+		_this.namedReferences = make(map[namedReferenceKey]uint32)
 	}
 
 	// Generate all record types at the top of the document
@@ -102,7 +110,7 @@ func (_this *RootObjectIterator) Iterate(object interface{}) {
 // ============================================================================
 // Internal
 
-func (_this *RootObjectIterator) getNamedLocalReference(ptr duplicates.TypedPointer) (name []byte, exists bool) {
+func (_this *RootObjectIterator) getNamedLocalReference(ptr namedReferenceKey) (name []byte, exists bool) {
 	num, exists := _this.namedReferences[ptr]
 	if !exists {
 		num = _this.nextMarkerName
@@ -124,7 +132,11 @@ func (_this *RootObjectIterator) addLocalReference(v reflect.Value) (didGenerate
 		return false
 	}
 
-	name, exists := _this.getNamedLocalReference(ptr)
+	key := namedReferenceKey{ptr: ptr}
+	if v.Kind() == reflect.Slice {
+		key.length = v.Len()
+	}
+	name, exists := _this.getNamedLocalReference(key)
 	if !exists {
 		_this.context.EventReceiver.OnMarker(name)
 		return false
